@@ -236,9 +236,9 @@ func getTypeInfo(t reflect.Type) (*typeInfo, error) {
 		}
 		f, _ = typeCache.LoadOrStore(t, info)
 	}
-	ti := &(*f.(*typeInfo))
+	ti := *f.(*typeInfo)
 	ti.Struct = t
-	return ti, nil
+	return &ti, nil
 }
 
 func indirectType(typ reflect.Type) reflect.Type {
